@@ -1056,26 +1056,31 @@ func statefulMonitor(r *mrand.Rand, s *signed, cases [][2][]byte) {
 		alt(func(b []byte) { b[12+r.Intn(len(b)-12)] ^= 1 << r.Intn(8) })
 	}
 	for _, c := range vs {
-		first := v.Verify([]byte(s.text), s.blob) // the genuine checkpoint, every time: it is the last one verified
-		got := v.Verify(c[0], c[1])
-		fresh, err := sunlight.NewRFC6962Verifier(s.name, s.k.pub)
-		if err != nil {
-			panic(err)
-		}
-		want := fresh.Verify(c[0], c[1])
-		args := []string{hx([]byte(s.name)), strconv.Itoa(s.k.alg), hx(s.k.pkix), hx([]byte(s.text)), hx(s.blob), hx(c[0]), hx(c[1])}
-		ok, why := got == want, ""
-		if !ok {
-			why = fmt.Sprintf("a verifier that has just verified the genuine checkpoint (%v) answers %v where a fresh verifier answers %v", first, got, want)
-		} else if got {
-			if cp, err := sunlight.ParseCheckpoint(string(c[0])); err != nil || len(c[1]) < 12 {
-				ok, why = false, "accepted an unparsable message"
-			} else if ia, w := independentAccepts(s.k.pub, uint64(cp.N), [32]byte(cp.Hash), binary.BigEndian.Uint64(c[1]), c[1][8:]); !ia {
-				ok, why = false, "accepted after the genuine checkpoint, but the independent verifier rejects: "+w
-			}
-		}
-		mon("mon_stateless", args, ok, why)
+		statelessCase(v, s.name, s.k, []byte(s.text), s.blob, c[0], c[1])
 	}
+}
+
+func statelessCase(v note.Verifier, name string, k *logKey, gtext, gblob, msg, blob []byte) {
+	first := v.Verify(gtext, gblob) // the genuine checkpoint, every time: it is the last one verified
+	got := v.Verify(msg, blob)
+	fresh, err := sunlight.NewRFC6962Verifier(name, k.pub)
+	if err != nil {
+		panic(err)
+	}
+	want := fresh.Verify(msg, blob)
+	verifyLine(name, k, msg, blob, want) // the fresh verdict is also a case of the model
+	args := []string{hx([]byte(name)), strconv.Itoa(k.alg), hx(k.pkix), hx(gtext), hx(gblob), hx(msg), hx(blob)}
+	ok, why := got == want, ""
+	if !ok {
+		why = fmt.Sprintf("a verifier that has just verified the genuine checkpoint (%v) answers %v where a fresh verifier answers %v", first, got, want)
+	} else if got {
+		if cp, err := sunlight.ParseCheckpoint(string(msg)); err != nil || len(blob) < 12 {
+			ok, why = false, "accepted an unparsable message"
+		} else if ia, w := independentAccepts(k.pub, uint64(cp.N), [32]byte(cp.Hash), binary.BigEndian.Uint64(blob), blob[8:]); !ia {
+			ok, why = false, "accepted after the genuine checkpoint, but the independent verifier rejects: "+w
+		}
+	}
+	mon("mon_stateless", args, ok, why)
 }
 
 // replayFile re-evaluates the self-contained monitor lines (mon_strict, mon_strict_direct) of a
@@ -1113,6 +1118,20 @@ func replayFile(path string) {
 			} else {
 				directMonitor(string(unhx(f[2])), k, unhx(f[5]), unhx(f[6]), "")
 			}
+			continue
+		}
+		if f[0] == "mon_stateless" && len(f) == 8 {
+			pub, err := x509.ParsePKIXPublicKey(unhx(f[3]))
+			if err != nil {
+				panic(err)
+			}
+			alg, _ := strconv.Atoi(f[2])
+			k := &logKey{alg: alg, pub: pub, pkix: unhx(f[3])}
+			v, err := sunlight.NewRFC6962Verifier(string(unhx(f[1])), pub)
+			if err != nil {
+				panic(err)
+			}
+			statelessCase(v, string(unhx(f[1])), k, unhx(f[4]), unhx(f[5]), unhx(f[6]), unhx(f[7]))
 			continue
 		}
 		if strings.HasPrefix(l, "verify|") {
